@@ -272,4 +272,23 @@ theorem patched_reading {r r3 : Raw} (hinv : Inv r) (v : Vol) (fsL : List LRec) 
       have hgy : slotRecs 69 r (hdrTotal r) [] 0 y = z := by unfold slotRecs; rw [if_pos hact, hz]; rfl
       refine Or.inr ⟨hd, subOk_congr hd hz hsub (fun j hj => hagy j (by rw [hgy, List.flatMap_map]; exact hj))⟩
 
+/-- the names of the volume directory after one slot has been rewritten: the other slots hold what they held -/
+theorem names_after {r r4 : Raw} {ch : List Nat} {s1 s2 : List (Bytes × Nat × Nat)} {x : Bytes × Nat × Nat} {e' : Bytes} {B k : Nat}
+    (hroot : Root r ch) (hsplit : dirSlots r 2 ch = s1 ++ x :: s2) (hslots4 : dirSlots r4 2 ch = s1 ++ (e', B, k + 1) :: s2)
+    (hnew : isAct (e', B, k + 1) = true → 47 ∉ trimName e') :
+    ∀ y ∈ dirSlots r4 2 ch, isAct y = true → 47 ∉ trimName y.1 := by
+  intro y hy hact
+  rw [hslots4] at hy
+  have hold : ∀ y ∈ s1 ++ s2, y ∈ dirSlots r 2 ch := by
+    intro y hy
+    rw [hsplit]
+    rcases List.mem_append.mp hy with a | a
+    · exact List.mem_append_left _ a
+    · exact List.mem_append_right _ (List.mem_cons_of_mem _ a)
+  rcases List.mem_append.mp hy with a | a
+  · exact hroot.names y (hold y (List.mem_append_left _ a)) hact
+  · rcases List.mem_cons.mp a with rfl | a'
+    · exact hnew hact
+    · exact hroot.names y (hold y (List.mem_append_right _ a')) hact
+
 end A2Verif.FsProdos
